@@ -85,6 +85,22 @@ theorem raw_devmajor : slice (rawHeader name mode uid gid size mtime tf linkname
 theorem raw_devminor : slice (rawHeader name mode uid gid size mtime tf linkname maj min) tarOffDevminor tarSizeofNum8 = writeNumber min 8 := by
   field_slice 14
 
+/-- the ustar `prefix` field (and the rest of the `tail` union) stays zero: the writer never splits a name -/
+theorem raw_prefix : slice (rawHeader name mode uid gid size mtime tf linkname maj min) tarOffPrefix tarSizeofPrefix = zeros 155 := by
+  rw [rawHeader_eq_flatten]
+  have h := slice_flatten_get (rawFields name mode uid gid size mtime tf linkname maj min) 15 (by simp [rawFields])
+  simp only [tarSizeofName, tarSizeofLinkname] at hn hl
+  have h' : slice (rawFields name mode uid gid size mtime tf linkname maj min).flatten 345 167 = zeros 167 := by
+    simpa [offsetOf, rawFields, hn, hl, writeNumber_length, writeNumberSigned_length, zeros_length, field_length,
+      magicOld, versionOld] using h
+  unfold slice at h' ⊢
+  simp only [tarOffPrefix, tarSizeofPrefix]
+  have : List.take 155 (List.drop 345 (rawFields name mode uid gid size mtime tf linkname maj min).flatten) =
+      List.take 155 (List.take 167 (List.drop 345 (rawFields name mode uid gid size mtime tf linkname maj min).flatten)) := by
+    rw [List.take_take]; rfl
+  rw [this, h']
+  simp [zeros, List.take_replicate]
+
 end fields
 
 /-! ### `update_checksum` rewrites only `[148, 156)` -/
